@@ -15,13 +15,20 @@ Import ListNotations.
 
 (* ---------------------------------------------------------------- scripts *)
 (* slots are the thread's own pointer variables; a thread only ever passes its own pointers (or a wild one) *)
+(* why a realloc request is turned down: RGuard = the size is so large that size + guard bytes + record would wrap around
+   size_t (MemoryLeakDetector::reallocMemory gives up before it looks at the block); RUnderlying = the size passes that
+   test and the underlying PlatformSpecificRealloc returns NULL (the record has been taken out of the table by then and is
+   put back) *)
+Inductive refusal := RGuard | RUnderlying.
+
 Inductive op :=
 | OAlloc (k : nat) (sz : N) (e : entry)   (* slot[k] = <e>(sz)        e one of the seven allocating entry points *)
 | OFree (k : nat) (e : entry)             (* <e>(slot[k]); slot[k] = NULL     e one of delete, delete[], free *)
 | ORealloc (k : nat) (sz : N)             (* slot[k] = realloc(slot[k], sz) *)
 | OOverrun (k : nat)                      (* slot[k][size] = 'x'   (first guard byte) *)
 | OWild (e : entry)                       (* <e>(pointer that was never allocated)   e one of delete, delete[], free, realloc *)
-| OBoundary.                              (* end of one test, start of the next (test thread only) *)
+| OBoundary                               (* end of one test, start of the next (test thread only) *)
+| ORefused (k : nat) (r : refusal).       (* q = realloc(slot[k], n) for an n that cannot be had: q = NULL, slot[k] keeps its block *)
 
 Record slotinfo := { s_size : N; s_fam : fam; s_bad : bool }.     (* what the thread knows about the block it holds *)
 Definition slots := list (nat * slotinfo).
@@ -81,6 +88,7 @@ Definition lstep (o : op) (L : local) : local * bool :=
       end
   | OWild _ => (L, true)
   | OBoundary => (next_test L, false)
+  | ORefused _ _ => (L, false)                                      (* a failed realloc leaves the old block as it is *)
   end.
 
 (* a misuse fails the running test and leaves it: the rest of that test's operations are not executed *)
@@ -130,7 +138,7 @@ Record cfg := { cfg_wiring : wtable;             (* which function is installed 
 Definition op_entry (o : op) : option entry :=
   match o with
   | OAlloc _ _ e | OFree _ e | OWild e => Some e
-  | ORealloc _ _ => Some ERealloc
+  | ORealloc _ _ | ORefused _ _ => Some ERealloc
   | _ => None
   end.
 Definition plain_wrapper : wrapper := {| w_locks := false; w_action := APlain |}.
@@ -145,6 +153,8 @@ Definition add_entry (t k : nat) (sz : N) (f : fam) (sh : shared) : shared :=
      sh_seq := N.succ (sh_seq sh) |}.                                   (* storeLeakInformation *)
 Definition del_entry (t k : nat) (sh : shared) : shared :=
   {| sh_table := tbl_remove t k (sh_table sh); sh_seq := sh_seq sh |}.
+Definition readd_entry (x : tentry) (sh : shared) : shared :=
+  {| sh_table := x :: sh_table sh; sh_seq := sh_seq sh |}.                (* addNewNode(node): the same record, the same number *)
 
 (* new shared state computed from the snapshot, and whether reporter_->fail() is called.  The decision is taken from what
    the detector sees: the table entry's allocator against the wrapper's, the guard bytes (s_bad is the memory content). *)
@@ -182,6 +192,25 @@ Definition detector (c : cfg) (t : nat) (o : op) (L : local) (snap : shared) : s
   | OWild e =>
       match w_action (wrapper_of c e) with
       | ARelease _ | ARealloc _ => (snap, true)                         (* retrieveNode finds nothing *)
+      | _ => (snap, false)
+      end
+  | ORefused k r =>
+      match w_action (wrapper_of c ERealloc) with
+      | ARealloc f =>
+          match r with
+          | RGuard => (snap, false)                                     (* sizeLeavesRoomForAccountingInformation: before anything else *)
+          | RUnderlying =>
+              match slot_get k (l_slots L) with
+              | None => (snap, false)                                   (* realloc(NULL, n) fails: there was no record *)
+              | Some si =>
+                  match tbl_find t k (sh_table snap) with
+                  | None => (snap, true)
+                  | Some x =>                                           (* removeNode, checkForCorruption, realloc fails, addNewNode *)
+                      if negb (fam_eqb (t_fam x) f) || s_bad si then (del_entry t k snap, true)
+                      else (readd_entry x (del_entry t k snap), false)
+                  end
+              end
+          end
       | _ => (snap, false)
       end
   | _ => (snap, false)
@@ -294,6 +323,27 @@ Fixpoint drain (c : cfg) (fuel : nat) (st : state) : state :=
   end.
 Definition complete (c : cfg) (st : state) : state := drain c (weight st) st.
 
+(* ---------------------------------------------------------------- how many threads are inside the locked region *)
+(* from the return of Lock() to the call of Unlock() *)
+Definition in_cs (p : phase) : bool := match p with PLocked | PRead _ | PExit | PFailing => true | _ => false end.
+Definition occupancy (st : state) : nat := length (filter (fun th => in_cs (th_phase th)) (st_threads st)).
+(* the largest occupancy over the states an execution goes through (the same walks as exec and drain) *)
+Fixpoint exec_peak (c : cfg) (sched : list nat) (st : state) : nat :=
+  match sched with
+  | [] => occupancy st
+  | t :: r => Nat.max (occupancy st) (exec_peak c r (step c t st))
+  end.
+Fixpoint drain_peak (c : cfg) (fuel : nat) (st : state) : nat :=
+  match fuel with
+  | O => occupancy st
+  | S f => match first_enabled c st with
+           | None => occupancy st
+           | Some t => Nat.max (occupancy st) (drain_peak c f (step c t st))
+           end
+  end.
+Definition run_peak (c : cfg) (sched : list nat) (st : state) : nat :=
+  let st1 := exec c sched st in Nat.max (exec_peak c sched st) (drain_peak c (weight st1) st1).
+
 (* ---------------------------------------------------------------- scenarios and observations *)
 Record scenario := { sc_outalloc : bool; sc_scripts : list (list op); sc_sched : list nat }.
 
@@ -309,6 +359,7 @@ Record obs := { o_done : bool;                       (* the run came to its end 
                 o_distinct : bool;                   (* outstanding blocks carry distinct numbers below the counter *)
                 o_foreign : N;                       (* outstanding records that no thread holds *)
                 o_rest : N;                          (* records left once every thread has released what it holds *)
+                o_overlap : N;                       (* threads seen inside the locked region at one moment, beyond the one the lock admits *)
                 o_entries : list (nat * nat * N) }.  (* outstanding blocks the threads hold: (thread, slot, size) *)
 
 Definition count_boundaries (ops : list op) : nat :=
@@ -330,7 +381,7 @@ Fixpoint nodup_N (l : list N) : bool :=
   end.
 Definition Nlen {A} (l : list A) : N := N.of_nat (length l).
 
-Definition observe (s : scenario) (st : state) : obs :=
+Definition observe (s : scenario) (peak : nat) (st : state) : obs :=
   let tb := sh_table (st_sh st) in
   let ths := st_threads st in
   {| o_done := all_done st;
@@ -340,11 +391,14 @@ Definition observe (s : scenario) (st : state) : obs :=
      o_distinct := nodup_N (map t_seq tb) && forallb (fun x => (1 <=? t_seq x)%N && (t_seq x <? sh_seq (st_sh st))%N) tb;
      o_foreign := Nlen (filter (fun x => negb (held ths x)) tb);
      o_rest := Nlen (filter (fun x => negb (held ths x)) tb);
+     o_overlap := N.of_nat (peak - 1);
      o_entries := map (fun x => (t_owner x, t_slot x, t_size x)) (filter (held ths) tb) |}.
 
+(* the observation of the execution that follows `sched` and is then run to its end *)
+Definition completed_obs (c : cfg) (s : scenario) (sched : list nat) : obs :=
+  observe s (run_peak c sched (init_state s)) (complete c (exec c sched (init_state s))).
 Definition run_with (tb : wtable) (unlocks : bool) (s : scenario) : obs :=
-  let c := cfg_of tb unlocks s in
-  observe s (complete c (exec c (sc_sched s) (init_state s))).
+  completed_obs (cfg_of tb unlocks s) s (sc_sched s).
 
 (* the code as it is: the wiring table regenerated from the source, the repaired reporter *)
 Definition run (s : scenario) : obs := run_with ts_table true s.
@@ -370,6 +424,7 @@ Fixpoint script_ok (ops : list op) (skipping : bool) (L : local) (may_misuse : b
         | OOverrun k => k <? max_slot
         | OWild e => is_wild_entry e
         | OBoundary => may_misuse
+        | ORefused k _ => k <? max_slot
         end in
       shape &&
       (if skipping then
@@ -381,6 +436,10 @@ Fixpoint script_ok (ops : list op) (skipping : bool) (L : local) (may_misuse : b
          (match o with
           | OAlloc k _ _ => match slot_get k (l_slots L) with None => true | Some _ => false end
           | OOverrun k => match slot_get k (l_slots L) with None => false | Some _ => true end
+          | ORefused k _ => match slot_get k (l_slots L) with               (* NULL, or an intact block that realloc may be given *)
+                            | None => true
+                            | Some si => fam_eqb (s_fam si) FMalloc && negb (s_bad si)
+                            end
           | _ => true
           end) &&
          match lstep o L with
@@ -399,7 +458,8 @@ Definition valid (s : scenario) : bool :=
 
 (* ---------------------------------------------------------------- the property as an oracle over the observation *)
 (* "the outstanding set equals the union of what each thread still holds, exactly as if the operations had run one after
-   another": every thread's script is read on its own with lrun; nothing here mentions tables, locks or schedules. *)
+   another": every thread's script is read on its own with lrun; nothing here mentions tables, locks or schedules.
+   A realloc that is turned down leaves its block with the thread, so the block stays in the union. *)
 Definition final_local (sc : list op) : local := lrun sc false l0.
 Fixpoint expected_entries (t : nat) (scripts : list (list op)) : list (nat * nat * N) :=
   match scripts with
@@ -439,4 +499,5 @@ Definition spec (s : scenario) (o : obs) : bool :=
   && N.eqb (o_adv o) (expected_allocs (sc_scripts s))          (* no allocation number lost or handed out twice *)
   && o_distinct o
   && N.eqb (o_foreign o) 0 && N.eqb (o_rest o) 0               (* nothing outstanding but what the threads hold *)
+  && N.eqb (o_overlap o) 0                                     (* never two threads inside the locked region: no race on the state *)
   && same_set (o_entries o) (expected_entries 0 (sc_scripts s)).
